@@ -20,6 +20,7 @@ type Seed struct {
 	Len  int    `json:"len"`  // length of the seed in bytes
 	MLen int    `json:"mlen"` // mutations and truncations are applied below this offset
 	NTab int    `json:"ntab"` // whole fonts: number of tables (plan kind "drop"), else 0
+	NGid int    `json:"ngid"` // whole fonts: number of glyph-id-valued words (plan kind "pair"), else 0
 	// Formats lists the alternative structures (table formats, lookup types, offset sizes ...)
 	// found in the seed by the independent walker of formats.go.
 	Formats []string `json:"formats"`
@@ -27,7 +28,7 @@ type Seed struct {
 }
 
 // Kinds of mutation; the order is the order of the plan (spec/Decoder.tla, Kinds).
-var Kinds = []string{"orig", "trunc", "word", "flip", "ff", "inc", "dec", "drop"}
+var Kinds = []string{"orig", "trunc", "word", "flip", "ff", "inc", "dec", "pair", "drop"}
 
 // NumValues is the number of replacement value classes of kind "word".
 const NumValues = 10
@@ -104,6 +105,11 @@ func Apply(s *Seed, m Mutant) ([]byte, error) {
 		return out, nil
 	case "drop":
 		return dropTable(d, m.Idx)
+	case "pair":
+		if m.Idx >= s.NGid*NumGidValues*NumTriggers {
+			return nil, fmt.Errorf("pair index %d out of plan", m.Idx)
+		}
+		return applyPair(d, m.Idx)
 	}
 	return nil, fmt.Errorf("unknown mutation kind %q", m.Kind)
 }
@@ -120,6 +126,8 @@ func Count(s *Seed, kind string) int {
 		return s.MLen / 2
 	case "drop":
 		return s.NTab
+	case "pair":
+		return s.NGid * NumGidValues * NumTriggers
 	}
 	return 0
 }
